@@ -7,6 +7,7 @@ require (
 	github.com/dgraph-io/badger v1.6.2
 	github.com/jirenius/go-res v0.0.0
 	github.com/jirenius/keylock v1.0.0
+	github.com/jirenius/taskqueue v1.1.0
 	github.com/nats-io/nats.go v1.10.0
 )
 
@@ -16,7 +17,6 @@ require (
 	github.com/dgraph-io/ristretto v0.0.2 // indirect
 	github.com/dustin/go-humanize v1.0.0 // indirect
 	github.com/golang/protobuf v1.4.0 // indirect
-	github.com/jirenius/taskqueue v1.1.0 // indirect
 	github.com/jirenius/timerqueue v1.0.0 // indirect
 	github.com/nats-io/jwt v0.3.2 // indirect
 	github.com/nats-io/nkeys v0.1.4 // indirect
@@ -31,3 +31,5 @@ require (
 replace github.com/jirenius/go-res => /repo
 
 replace github.com/jirenius/keylock => ./third_party/keylock
+
+replace github.com/jirenius/taskqueue => ./third_party/taskqueue
